@@ -382,6 +382,8 @@ func c08Fallback(r *lp.Run) {
 	cases := []fc{
 		{`^(?=a)ab$`, "ab", "bb"}, {`^a(?!b).$`, "ac", "ab"}, {`^(a)\1$`, "aa", "ab"}, {`(?<=a)b`, "ab", "cb"}, {`(?<!a)b`, "cb", "ab"},
 		{`^(?<x>a)\k<x>$`, "aa", "ab"}, {`^[\S]$`, "a", " "}, {`^[^\S]$`, " ", "a"},
+		// a back-reference to a group that opens later (or encloses it) matches the empty string
+		{`^\1(a)$`, "a", "\x01a"}, {`^(a)\2(b)$`, "ab", "a\x02b"}, {`^(a\1)$`, "a", "aa"},
 	}
 	for _, c := range cases {
 		out := implConvert(c.p)
